@@ -74,6 +74,8 @@ def dest_kind(host: str):
         return ("any6" if host == "::" else "any6_alt"), ip
     if (v >> 32) == 0xFFFF and LO4_LO <= (v & 0xFFFFFFFF) <= LO4_HI:
         return "lo_mapped", ip
+    if (v >> 32) == 0xFFFF and (v & 0xFFFFFFFF) == 0:
+        return "any_mapped", ip
     return "ip_other", ip
 
 
@@ -127,7 +129,7 @@ CONFIGS_THOROUGH = dict(CONFIGS, **{
     "three": [["regular", [["::1", 8080]]], ["dns", [["0.0.0.0", 8081]]], ["wireguard", [["192.168.1.5", 8081]]]],
 })
 DESTS = ["localhost", "LOCALHOST", "localhost.", "127.0.0.1", "127.0.0.2", "::1", "0:0:0:0:0:0:0:1", "::ffff:127.0.0.1",
-         "0.0.0.0", "::", "192.168.1.5", "2001:db8::5", "2001:DB8:0:0::5", "example.com", "10.0.0.1"]
+         "0.0.0.0", "::", "::ffff:0.0.0.0", "192.168.1.5", "2001:db8::5", "2001:DB8:0:0::5", "example.com", "10.0.0.1"]
 DESTS_THOROUGH = DESTS + ["LocalHost", "LOCALHOST.", "127.255.255.254", "127.0.0.5", "0::1", "::ffff:7f00:1", "0::0",
                           "0:0:0:0:0:0:0:0", "10.1.2.3", "2001:db8::6", "localhost.example.com", "192.168.1.50",
                           "::ffff:192.168.1.5"]
@@ -232,7 +234,7 @@ class Check(core.PropertyCheck):
     MODEL = "SelfConnect"
     MON = "Mon_SelfConnect"
     REQUIRED_WITNESSES = ("self_refused", "self_refused_localhost", "self_refused_lo4", "self_refused_lo6",
-                          "other_let_through", "connect_attempted")
+                          "other_let_through", "connect_attempted", "self_refused_wildcard_explicit_listener")
     REQUIRED_ACTIONS = ("Listen", "Open", "ConnectHook", "Refuse", "Connect", "Finish")
     ASSUMPTIONS = (
         "what a destination text denotes is decided by the harness's parser (props/C23.py denote/dest_kind): names are "
@@ -241,8 +243,8 @@ class Check(core.PropertyCheck):
         "started server instances are stubs exposing the two attributes the guard reads (mode, listen_addrs as "
         "getsockname() reports them); socket opens are recorders that fail with OSError; the addon manager is a stub "
         "that calls the real Proxyserver.server_connect and swallows its exceptions like AddonManager.safecall",
-        "wildcard destinations are demanded only when listening on loopback or all interfaces (a socket bound to an "
-        "explicit non-loopback address is not reached through 0.0.0.0)",
+        "a wildcard destination (0.0.0.0, ::, ::ffff:0.0.0.0 in any spelling) on a listener's port and transport always "
+        "denotes self, however the listener is bound (third alternative of the statement, read unconditionally)",
     )
 
     def mon_constants(self, tier):
@@ -310,7 +312,7 @@ class Check(core.PropertyCheck):
                 v = LO4_LO + rng.randrange(1 << 24)
                 return rng.choice(["::ffff:" + _fmt4(v), "::ffff:%x:%x" % (v >> 16, v & 0xFFFF)])
             if r < 0.7:
-                return rng.choice(["0.0.0.0", "::", "0::", "::0", "0:0:0:0:0:0:0:0"])
+                return rng.choice(["0.0.0.0", "::", "0::", "::0", "0:0:0:0:0:0:0:0", "::ffff:0.0.0.0", "::ffff:0:0"])
             if r < 0.85:
                 fam, v = rng.choice(list(EXPLICIT))
                 if fam == "v4":
